@@ -232,7 +232,7 @@ pub fn run(tier: Tier) -> Outcome {
             continue;
         }
         let Some(h) = guarded(&format!("C03 sweep {wn}"), || sweep_model(tier, wn)) else { continue };
-        let lim = Limits { max_depth: 1, max_wall_s: 60.0, ..Default::default() };
+        let lim = Limits { max_depth: 1, max_wall_s: 300.0, ..Default::default() };
         let (report, recheck) = run_world(&h, &lim, None);
         runs.push(HistRun { world: format!("sweep:{wn}"), report, recheck });
     }
@@ -255,7 +255,7 @@ pub fn run(tier: Tier) -> Outcome {
             continue;
         }
         let Some(h) = guarded(&format!("C03 rt {wn}"), || roundtrip_model(tier, wn)) else { continue };
-        let lim = Limits { max_depth: depth, max_wall_s: if tier == Tier::Quick { 25.0 } else { 900.0 }, ..Default::default() };
+        let lim = Limits { max_depth: depth, max_wall_s: if tier == Tier::Quick { 300.0 } else { 900.0 }, ..Default::default() };
         let (report, recheck) = run_world(&h, &lim, Some(depth - 2));
         runs.push(HistRun { world: format!("rt:{wn}"), report, recheck });
     }
@@ -267,7 +267,7 @@ pub fn run(tier: Tier) -> Outcome {
         }
         let Some(h) = guarded(&format!("C03 stale {wn}"), || stale_model(tier, wn)) else { continue };
         let d = if tier == Tier::Quick { 3 } else { 4 };
-        let lim = Limits { max_depth: d, max_wall_s: if tier == Tier::Quick { 25.0 } else { 900.0 }, ..Default::default() };
+        let lim = Limits { max_depth: d, max_wall_s: if tier == Tier::Quick { 300.0 } else { 900.0 }, ..Default::default() };
         let (report, recheck) = run_world(&h, &lim, Some(d - 1));
         runs.push(HistRun { world: format!("stale:{wn}"), report, recheck });
     }
